@@ -1,16 +1,18 @@
 #!/bin/sh
-# tools/seed_test_queue.sh  -- loop: for every /tmp/seed_out/P/patchK.diff without a result line in /tmp/vs/results.txt,
+# tools/seed_test_queue.sh  -- loop: for every /tmp/seed_out/P/patchK.diff without a result line in $RES,
 # run tools/verify_seed.sh P K (demo clean/patched + whole test suite except the slow memusage profiling file) and append the outcome.
-mkdir -p /tmp/vs; touch /tmp/vs/results.txt
+SO=${SEED_OUT:-/tmp/seed_out}; RES=${RESULTS:-/tmp/vs/results.txt}; KSEL=${KSEL:-[0-9]}
+export SEED_OUT=$SO
+mkdir -p /tmp/vs; touch $RES
 while true; do
   did=0
-  for f in /tmp/seed_out/C*/patch[0-9].diff; do
+  for f in $SO/C*/patch$KSEL.diff; do
     [ -f "$f" ] || continue
     P=$(basename $(dirname $f)); K=$(basename $f .diff | sed 's/patch//')
-    [ -f "/tmp/seed_out/$P/demo$K.py" ] || continue
-    grep -q "^$P $K " /tmp/vs/results.txt && continue
+    [ -f "$SO/$P/demo$K.py" ] || continue
+    grep -q "^$P $K " $RES && continue
     # wait until the seed agent is finished with this seed (notes file written)
-    [ -f "/tmp/seed_out/$P/notes$K.md" ] || continue
+    [ -f "$SO/$P/notes$K.md" ] || continue
     # test selection by touched area (the whole suite takes >25 min on a loaded machine): see DESIGN.md 10.3
     T=""
     grep -q "^+++ b/lib/sqlalchemy/\(sql\|dialects\)/" $f && T="$T test/sql test/dialect test/base"
@@ -22,7 +24,7 @@ while true; do
     T=$(echo $T | tr ' ' '\n' | awk '!s[$0]++' | tr '\n' ' ')
     out=$(/verif/tools/verify_seed.sh $P $K $T 2>&1); rc=$?
     out="[tests: $T] $out"
-    echo "$P $K rc=$rc | $(echo "$out" | tr '\n' ' ' | cut -c1-600)" >> /tmp/vs/results.txt
+    echo "$P $K rc=$rc | $(echo "$out" | tr '\n' ' ' | cut -c1-600)" >> $RES
     did=1
   done
   [ $did -eq 0 ] && sleep 60
